@@ -9,10 +9,12 @@ def hx(s):
 
 
 # ----------------------------------------------------------------------------- set-valued observables
-# Go iterates the candidate map in random order and sorts unstably: where several candidates have the same best
-# score the real code answers any of them. The model prints the whole set of possible answers; the implementation
-# leg prints the set of answers it gave over a few repetitions. "impl agrees with model" = same flags and
-# impl-set is a non-empty subset of the model set (or both empty).
+# Before fixes/C09-deterministic-order.diff Go iterated the candidate map in random order and sorted unstably: where
+# several candidates have the same best score the code answered any of them. The model prints the set of possible
+# answers; the implementation leg prints the set of answers it gave over a few repetitions. "impl agrees with model"
+# = same flags and impl-set is a non-empty subset of the model set (or both empty). With the repaired code (driver
+# constant fixed_order = true, rcfg field order_fixed) the model's sets are singletons (C18_resolution_single_fixed,
+# C18_no_ambiguity_fixed: the AMBIG escape below never fires), so a second answer of the implementation is a deviation.
 SET_RE = re.compile(r"\{([^{}]*)\}")
 
 
@@ -384,7 +386,7 @@ LEGS[4].set_valued = True
 TRUSTED = vlib.TRUSTED_COMMON + [
     "oracle: the file system (filefolder.IsFileExist behind FileExistCache) = Section variable disk; the OCaml driver's path normalisation stands for the OS",
     "oracle: the regular-expression extraction of the module string under the cursor in stringutil.GetOpenFileStr (its tail, the candidate list, is modelled: open_list)",
-    "modelled, tied by correspondence: common.FileIndexInfo (Insert/Remove/lookups), calcMatchStrScore, GetBestMatchReferFile (as the set of best-scored candidates), FileResult.CheckReferFile, FindOpenFileDefine",
+    "modelled, tied by correspondence: common.FileIndexInfo (Insert/Remove/lookups), calcMatchStrScore, GetBestMatchReferFile (repaired: the best-scored candidate with the least path; the set of best-scored candidates for the code before fixes/C09-deterministic-order.diff is kept under order_fixed = false), FileResult.CheckReferFile, FindOpenFileDefine",
     "assumed configuration shape: one workspace root, no sub-directories / client ext path, first analysis pass",
 ]
 
@@ -399,4 +401,4 @@ def main(tier, seed):
             r.run_leg(leg)
     return r.finish(LEGS, trusted=TRUSTED, assumptions=[
         "hover/definition: the module string under the cursor is taken as given (regex extraction is an oracle)",
-        "ties between equally scored candidates are allowed by C18 (any documented match conforms); their nondeterminism is C09's finding"])
+        "ties between equally scored candidates are allowed by C18 (any documented match conforms); since fixes/C09-deterministic-order.diff the code resolves them by the path (C09_best_match_perm_full) and the model predicts that single answer"])
